@@ -64,6 +64,11 @@ struct Scn {
     /// the connection task may be polled LATE once (2 ms after it became runnable): timers fire late on a busy
     /// machine, and a peer that answers within a millisecond must survive that also when T = I
     jitter: bool,
+    /// how late that one poll comes, in ms (2 = a timer firing late; larger = the thread that runs the connection task
+    /// was not scheduled for that long: a stopped or paused process, a blocking call on the runtime thread)
+    late_ms: u64,
+    /// after the scripted rounds the peer keeps answering after T/2 (instead of at once)
+    half_tail: bool,
     /// the two option setters are called in the other order (timeout first, then interval)
     timeout_first: bool,
 }
@@ -180,7 +185,7 @@ async fn run_async(sc: &Scn, render: bool) -> RunOutput {
                     hang.notify_one();
                     continue;
                 }
-                let d = if k < sc.rounds.len() { sc.rounds[k] } else if sc.prompt_tail { Delay::Zero } else { Delay::Never };
+                let d = if k < sc.rounds.len() { sc.rounds[k] } else if sc.half_tail { Delay::Half } else if sc.prompt_tail { Delay::Zero } else { Delay::Never };
                 let base = t_eff.unwrap_or(Duration::from_millis(sc.interval.max(1000)));
                 let delay = match d {
                     Delay::Zero => Some(Duration::ZERO),
@@ -220,12 +225,14 @@ async fn run_async(sc: &Scn, render: bool) -> RunOutput {
         let c = choose(&kinds);
         if c < en.len() {
             let step: Step = en[c].clone();
-            if sc.jitter && !late_used && matches!(step, Step::Poll(0)) {
+            // (a long stall is only injected when the task's poll is the only enabled step: the clock is global, and a
+            // stalled THREAD does not hold up frames that are already on the wire)
+            if sc.jitter && !late_used && matches!(step, Step::Poll(0)) && (sc.late_ms <= 2 || en.len() == 1) {
                 // environment answer: on time (default) or late
                 if choose(&[Cost::Env, Cost::Env]) == 1 {
                     late_used = true;
                     wit |= W_LATE_POLL;
-                    tokio::time::advance(Duration::from_millis(2)).await;
+                    tokio::time::advance(Duration::from_millis(sc.late_ms)).await;
                 }
             }
             if render {
@@ -269,12 +276,15 @@ async fn run_async(sc: &Scn, render: bool) -> RunOutput {
         // a ping leaves every I while the connection is alive (whether the first one leaves at start-up or
         // one interval later is not prescribed)
         let alive_until = ended_at.unwrap_or(end_now);
-        if let Some(first) = pings.first() {
+        // (a stall of the connection task that the harness itself injected shifts the pings; the schedule is judged only
+        // in executions without one)
+        let stalled = sc.jitter && sc.late_ms > 2 && late_used;
+        if let (Some(first), false) = (pings.first(), stalled) {
             if *first > i + TOL {
                 push_viol(&mut viol, "ping.schedule", format!("the first Ping left at {first:?}, later than one interval {i:?} after start-up"));
             }
         }
-        for k in 1..pings.len() {
+        for k in if stalled { 0..0 } else { 1..pings.len() } {
             let gap = pings[k] - pings[k - 1];
             if gap + TOL < i || gap > i + TOL {
                 push_viol(&mut viol, "ping.schedule", format!("Ping #{k} left {gap:?} after the previous one (at {:?}), interval is {i:?}", pings[k]));
@@ -282,13 +292,15 @@ async fn run_async(sc: &Scn, render: bool) -> RunOutput {
         }
         let expected_pings = (alive_until.as_millis() / i.as_millis()) as usize + 1;
         // (the tick at which the timeout is detected sends no ping; a first ping after one interval is one fewer)
-        if hung_at.is_none() && (pings.len() + 2 < expected_pings || pings.len() > expected_pings) {
+        if hung_at.is_none() && !stalled && (pings.len() + 2 < expected_pings || pings.len() > expected_pings) {
             push_viol(&mut viol, "ping.count", format!("{} Ping(s) in {alive_until:?} of life with interval {i:?} (expected about {expected_pings})", pings.len()));
         }
         // Only pongs the task actually took out of its socket count: after giving up it does not read any more.
         let consumed = w.sim.link.lock().dirs[1].consumed as usize;
         let lp = if ended_at.is_some() { pongs_rx.iter().take(consumed).map(|(t, _)| *t).last().unwrap_or(Duration::ZERO) } else { pongs_rx.last().map_or(Duration::ZERO, |(t, _)| *t) };
         let _ = ended_step;
+        // (a stall injected by the harness delays detection by as much)
+        let slack = if stalled { Duration::from_millis(sc.late_ms) } else { Duration::ZERO };
         match (ended_at, t_eff) {
             (Some(e), Some(te)) => {
                 match &res {
@@ -298,12 +310,12 @@ async fn run_async(sc: &Scn, render: bool) -> RunOutput {
                 if e + TOL < lp + te {
                     push_viol(&mut viol, "timeout.too-early", format!("keepalive timeout at {e:?}: last pong received at {lp:?}, timeout {te:?} => not before {:?} (interval {i:?})", lp + te));
                 }
-                if e > lp + te + i + TOL {
+                if e > lp + te + i + TOL + slack {
                     push_viol(&mut viol, "timeout.too-late", format!("keepalive timeout at {e:?}: last pong received at {lp:?}, timeout {te:?}, interval {i:?} => not after {:?}", lp + te + i));
                 }
                 // a peer that answers every ping within T is never declared dead
                 let all_in_time = pings.iter().enumerate().all(|(k, p)| {
-                    let d = if k < sc.rounds.len() { sc.rounds[k] } else if sc.prompt_tail { Delay::Zero } else { Delay::Never };
+                    let d = if k < sc.rounds.len() { sc.rounds[k] } else if sc.half_tail { Delay::Half } else if sc.prompt_tail { Delay::Zero } else { Delay::Never };
                     // (an answer exactly at the deadline can coincide with the check; only strictly earlier answers are the premise)
                     { let _ = (p, e); matches!(d, Delay::Zero | Delay::Half) }
                 });
@@ -319,7 +331,7 @@ async fn run_async(sc: &Scn, render: bool) -> RunOutput {
                 marks.extend(pongs_rx.iter().map(|(t, _)| *t));
                 marks.push(end_now);
                 for p in marks.windows(2) {
-                    if p[1] > p[0] + te + i + TOL {
+                    if p[1] > p[0] + te + i + TOL + slack {
                         push_viol(&mut viol, "timeout.missed", format!("no Pong was received between {:?} and {:?} (timeout {te:?}, interval {i:?}) but the connection is still up at {end_now:?}", p[0], p[1]));
                     }
                 }
@@ -384,7 +396,7 @@ pub fn run(args: &Args) -> Report {
                 if interval == 0 && (code != 0 || prompt_tail) {
                     continue;
                 }
-                let sc = Scn { interval, timeout, rounds: hist.clone(), prompt_tail, hung_tail: false, peer_pings: false, jitter: false, timeout_first: false };
+                let sc = Scn { interval, timeout, rounds: hist.clone(), prompt_tail, hung_tail: false, peer_pings: false, jitter: false, late_ms: 2, half_tail: false, timeout_first: false };
                 let label = format!("I={interval}ms T={}ms history={hist:?} then {}", if timeout == 0 { "NONE".to_string() } else { timeout.to_string() }, if prompt_tail { "prompt" } else { "silent" });
                 cases.push(Case { try_unbounded: false, max_k: u32::MAX, label, exec: Box::new(move |r| exec(&sc, r)) });
             }
@@ -400,7 +412,7 @@ pub fn run(args: &Args) -> Report {
             let total = 2usize.pow(len as u32);
             for code in 0..total {
                 let hist: Vec<Delay> = (0..len).map(|r| if (code >> r) & 1 == 0 { Delay::Zero } else { Delay::Half }).collect();
-                let sc = Scn { interval, timeout, rounds: hist.clone(), prompt_tail: false, hung_tail: true, peer_pings: false, jitter: false, timeout_first: false };
+                let sc = Scn { interval, timeout, rounds: hist.clone(), prompt_tail: false, hung_tail: true, peer_pings: false, jitter: false, late_ms: 2, half_tail: false, timeout_first: false };
                 let label = format!("I={interval}ms T={}ms history={hist:?} then the peer hangs (reads nothing), send side congested", if timeout == 0 { "NONE".to_string() } else { timeout.to_string() });
                 cases.push(Case { try_unbounded: false, max_k: u32::MAX, label, exec: Box::new(move |r| exec(&sc, r)) });
             }
@@ -412,7 +424,7 @@ pub fn run(args: &Args) -> Report {
             continue;
         }
         for (hist, prompt_tail) in [(vec![], false), (vec![Delay::Zero, Delay::Zero], false), (vec![Delay::Zero, Delay::Half, Delay::Zero], true)] {
-            let sc = Scn { interval, timeout, rounds: hist.clone(), prompt_tail, hung_tail: false, peer_pings: false, jitter: false, timeout_first: true };
+            let sc = Scn { interval, timeout, rounds: hist.clone(), prompt_tail, hung_tail: false, peer_pings: false, jitter: false, late_ms: 2, half_tail: false, timeout_first: true };
             let label = format!("I={interval}ms T={timeout}ms (timeout set BEFORE the interval) history={hist:?} then {}", if prompt_tail { "prompt" } else { "silent" });
             cases.push(Case { try_unbounded: false, max_k: u32::MAX, label, exec: Box::new(move |r| exec(&sc, r)) });
         }
@@ -422,10 +434,15 @@ pub fn run(args: &Args) -> Report {
         if interval == 0 {
             continue;
         }
-        let sc = Scn { interval, timeout, rounds: vec![Delay::Zero; 3], prompt_tail: true, hung_tail: false, peer_pings: false, jitter: true, timeout_first: false };
+        let sc = Scn { interval, timeout, rounds: vec![Delay::Zero; 3], prompt_tail: true, hung_tail: false, peer_pings: false, jitter: true, late_ms: 2, half_tail: false, timeout_first: false };
         let label = format!("I={interval}ms T={}ms every Ping answered at once; one poll of the connection task comes 2 ms late", if timeout == 0 { "NONE".to_string() } else { timeout.to_string() });
         cases.push(Case { try_unbounded: false, max_k: 0, label, exec: Box::new(move |r| exec(&sc, r)) });
     }
+    // (Stalls of the thread that runs the connection task for a sizeable part of an interval -- `late_ms` well above timer
+    // jitter -- are NOT enumerated: C16 quantifies over pong histories, not over scheduling outages of the endpoint
+    // itself, and an endpoint that was not running cannot in general tell its own outage from the peer's silence, e.g.
+    // when the outage falls between the tick that timestamps a Ping and the poll that writes it. See
+    // findings/HUNT-TRIAGE.md, second round, C16.)
     // the peer keeps sending Pings of its own, also after it has stopped answering ours
     for &(interval, timeout) in &cfgs2 {
         if interval == 0 {
@@ -437,7 +454,7 @@ pub fn run(args: &Args) -> Report {
             for code in 0..total {
                 let hist: Vec<Delay> = (0..len).map(|r| if (code >> r) & 1 == 0 { Delay::Zero } else { Delay::Half }).collect();
                 for prompt_tail in [false, true] {
-                    let sc = Scn { interval, timeout, rounds: hist.clone(), prompt_tail, hung_tail: false, peer_pings: true, jitter: false, timeout_first: false };
+                    let sc = Scn { interval, timeout, rounds: hist.clone(), prompt_tail, hung_tail: false, peer_pings: true, jitter: false, late_ms: 2, half_tail: false, timeout_first: false };
                     let label = format!("I={interval}ms T={}ms history={hist:?} then {}; the peer sends its own Ping every interval throughout", if timeout == 0 { "NONE".to_string() } else { timeout.to_string() }, if prompt_tail { "prompt" } else { "silent" });
                     cases.push(Case { try_unbounded: false, max_k: u32::MAX, label, exec: Box::new(move |r| exec(&sc, r)) });
                 }
